@@ -57,6 +57,9 @@ type params struct {
 	Order     string `json:"order,omitempty"`  // both | dialer-first | listener-first
 	Kind      string `json:"kind,omitempty"`   // deadline leg: hostile server kind
 	DMs       int    `json:"d_ms,omitempty"`   // deadline leg: the dial deadline; idle leg: the dial timeout
+	// Head, when set, replaces the first bytes of both payloads: line-ending and white-space bytes
+	// right behind the login lines are where a "tolerant" login reader would eat payload.
+	Head []byte `json:"head,omitempty"`
 }
 
 const (
@@ -131,6 +134,14 @@ func plan(seed int64, tier string) []vrt.Case {
 		for _, k := range []int{1, 100, 4000} {
 			add(params{Leg: "eager", API: api, Call: []byte("N0CALL-7"), PW: []byte("CMSTelnet"), CallClass: "realistic", PWClass: "realistic",
 				NC2S: 300, NS2C: 5000 + i, Seed: int64(200 + i), PlanC2S: "pass", PlanS2C: "hold", HoldK: k, Order: "both"})
+		}
+	}
+	// payload beginning with line-ending / white-space / control bytes, coalesced with the password line
+	// (and, in a second variant, arriving in a segment of its own): it is payload and must arrive
+	for i, head := range [][]byte{{'\n'}, {'\r'}, {'\r', '\n'}, {'\n', '\n', '\r'}, {0}, {' '}, {'\t', ' '}, {0xff, 0xfd, 0x03}, {'\n', 'P', 'a', 's', 's'}} {
+		for j, pl := range []string{"hold", "pass", "byte"} {
+			add(params{Leg: "pair", API: loginAPIs[(i+j)%len(loginAPIs)], Call: []byte("LA5NTA"), PW: []byte("secret"), CallClass: "realistic", PWClass: "realistic",
+				NC2S: 600 + i, NS2C: 500 + i, Seed: int64(250 + 3*i + j), PlanC2S: pl, PlanS2C: []string{"pass", "hold", "split"}[j], HoldK: 1 + i%3, Order: "both", Head: head})
 		}
 	}
 	// boundary callsigns / passwords, every plan kind
@@ -555,6 +566,8 @@ func loginAttempt(o *vrt.Obs, p params, td *teardown) {
 	r := vrt.Rand(p.Seed, "c15-run")
 	payC2S := genPayload(r, p.NC2S)
 	payS2C := genPayload(r, p.NS2C)
+	copy(payC2S, p.Head)
+	copy(payS2C, p.Head)
 	n1, n2 := len(call)+1, len(pw)+1
 	loginC2S, loginS2C := n1+n2, len(promptCall)+len(promptPass)
 	eager := p.Leg == "eager"
